@@ -68,8 +68,11 @@ class Scenario:
                     if s is self.state[0]:
                         e = e + sympy.Mod(self.state[1], 3) * self.state[0]
                     elif s is self.state[1]:
-                        # ... and a quantity wrapped into (-5/2, 0]: a NEGATIVE divisor (Mod takes the divisor's sign)
-                        e = e + 2 * sympy.Mod(self.state[1], 3) + sympy.Mod(self.state[0], -sympy.Rational(5, 2))
+                        # wrapped='negative' (plain-model programs): also a quantity wrapped into (-5/2, 0] - a NEGATIVE divisor (Mod takes
+                        # the divisor's sign).  Kept out of the filter programs: there the shared Mod(v, 3) must stay the ONLY unevaluated derivative
+                        e = e + 2 * sympy.Mod(self.state[1], 3)
+                        if wrapped == "negative":
+                            e = e + sympy.Mod(self.state[0], -sympy.Rational(5, 2))
                 if tiny and len(allsyms) >= 2 and s is self.state[0]:
                     # physically tiny constants as BARE coefficients: a constant Jacobian entry of 3e-19, and (below) noise of 4e-22 / 6e-20
                     e = e + sympy.Float(3e-19) * (a if a is not s else b)
@@ -257,8 +260,30 @@ def build_ekf(sc, config=None, container="set", proactive_simplify=False):
     model = sc.ui_model(ui, container, proactive_simplify=proactive_simplify)
     # the calibration map is written in REVERSE name order (a map has no order the library may rely on)
     cal = dict(sorted(sc.calibration_map.items(), key=lambda kv: kv[0].name, reverse=True))
-    ekf = py.compile_ekf(model, dict(sc.process_noise), {k: dict(v) for k, v in sc.sensor_models.items()}, {k: dict(v) for k, v in sc.sensor_noises.items()}, calibration_map=cal, config=cfg)
+    pn, sms, sns = dict(sc.process_noise), {k: dict(v) for k, v in sc.sensor_models.items()}, {k: dict(v) for k, v in sc.sensor_noises.items()}
+    before = definition_snapshot(model, pn, sms, sns, cal)
+    ekf = py.compile_ekf(model, pn, sms, sns, calibration_map=cal, config=cfg)
+    after = definition_snapshot(model, pn, sms, sns, cal)
+    if after != before:
+        changed = [k for k in before if before[k] != after[k]]
+        raise DefinitionModified(f"compile_ekf rewrote the caller's definition in place ({', '.join(changed)}): whatever is generated from it next is generated from something else")
     return py, ekf
+
+
+class DefinitionModified(Exception):
+    pass
+
+
+def definition_snapshot(model, pn, sms, sns, cal):
+    """What the caller handed over, as text (expressions by srepr: an equal-valued rewrite is still a rewrite)."""
+    return {
+        "state_model": sorted((str(k), sympy.srepr(v)) for k, v in model.state_model.items()),
+        "state/control/calibration": (sorted(map(str, model.state)), sorted(map(str, model.control)), sorted(map(str, model.calibration))),
+        "process_noise": sorted((str(k), repr(v)) for k, v in pn.items()),
+        "sensor_models": sorted((k, sorted((str(r), sympy.srepr(sympy.sympify(e))) for r, e in m.items())) for k, m in sms.items()),
+        "sensor_noises": sorted((k, sorted((str(r), repr(v)) for r, v in m.items())) for k, m in sns.items()),
+        "calibration_map": sorted((str(k), repr(v)) for k, v in cal.items()),
+    }
 
 
 def named_state(ekf, sc, point):
